@@ -136,6 +136,7 @@ func scenarios() []*scenario {
 		all = append(all, txSubmissionServerScenarios()...)
 		all = append(all, leiosScenarios()...)
 		all = append(all, dmqScenarios()...)
+		all = append(all, duplexScenarios()...)
 		for _, s := range all {
 			s.finish()
 		}
@@ -151,6 +152,97 @@ func scenarioByName(n string) *scenario {
 		}
 	}
 	return nil
+}
+
+// shortTimeout is the protocol timeout of the "-timeouts" scenarios (silence-timeout fault).
+const shortTimeout = 250 * time.Millisecond
+
+func withTimeouts(s *scenario, opts func() []ouroboros.ConnectionOptionFunc) *scenario {
+	s.Timeouts = true
+	s.Opts = opts
+	s.Flood = nil
+	return s
+}
+
+// ---- full duplex: client and server halves on one connection ----------------------------------
+
+func duplexScenarios() []*scenario {
+	bs := testBlocks()
+	b0, b1 := bs[1], bs[0]
+	tipA := tipAhead(b1)
+	foundOrigin := enc("IntersectFound", chainsync.NewMsgIntersectFound(pcommon.NewPointOrigin(), tipA))
+	notFound := enc("IntersectNotFound", chainsync.NewMsgIntersectNotFound(tipA))
+	tx := fixtures.DijkstraTx()
+	var txid txsubmission.TxId
+	txid.EraId = 7
+	copy(txid.TxId[:], []byte("0123456789abcdef0123456789abcdef"))
+	init := enc("Init", txsubmission.NewMsgInit())
+	ids := enc("ReplyTxIds", txsubmission.NewMsgReplyTxIds([]txsubmission.TxIdAndSize{{TxId: txid, Size: uint32(len(tx))}}))
+	txs := enc("ReplyTxs", txsubmission.NewMsgReplyTxs([]txsubmission.TxBody{{EraId: 7, TxBody: tx}}))
+	done := enc("Done", txsubmission.NewMsgDone())
+	start := enc("StartBatch", blockfetch.NewMsgStartBatch())
+	noBlocks := enc("NoBlocks", blockfetch.NewMsgNoBlocks())
+	bdone := enc("BatchDone", blockfetch.NewMsgBatchDone())
+	blk0 := fetchedBlock(bs[0])
+	_ = b0
+	opts := func() []ouroboros.ConnectionOptionFunc {
+		cs := chainsync.NewConfig(
+			chainsync.WithRollForwardFunc(func(chainsync.CallbackContext, uint, any, chainsync.Tip) error { return nil }),
+			chainsync.WithRollBackwardFunc(func(chainsync.CallbackContext, pcommon.Point, chainsync.Tip) error { return nil }))
+		bf, _ := blockfetch.NewConfig(
+			blockfetch.WithBlockFunc(func(blockfetch.CallbackContext, uint, ledger.Block) error { return nil }),
+			blockfetch.WithBatchDoneFunc(func(blockfetch.CallbackContext) error { return nil }))
+		ts := txsubmission.NewConfig(
+			txsubmission.WithInitFunc(func(txsubmission.CallbackContext) error { return nil }),
+			txsubmission.WithDoneFunc(func(txsubmission.CallbackContext) error { return nil }),
+			txsubmission.WithRequestTxIdsFunc(func(txsubmission.CallbackContext, bool, uint16, uint16) ([]txsubmission.TxIdAndSize, error) {
+				return nil, nil
+			}))
+		return []ouroboros.ConnectionOptionFunc{ouroboros.WithChainSyncConfig(cs), ouroboros.WithBlockFetchConfig(bf), ouroboros.WithTxSubmissionConfig(ts)}
+	}
+	csTip := call("GetCurrentTip", func(c *ouroboros.Connection) (string, error) {
+		t, err := c.ChainSync().Client.GetCurrentTip()
+		if err != nil {
+			return "", err
+		}
+		return fmt.Sprint(t.Point.Slot), nil
+	})
+	csStop := call("Stop", func(c *ouroboros.Connection) (string, error) { return okStr(c.ChainSync().Client.Stop()) })
+	csStart := call("Start", func(c *ouroboros.Connection) (string, error) { c.ChainSync().Client.Start(); return "ok", nil })
+	srvIds := call("RequestTxIds(blocking)", func(c *ouroboros.Connection) (string, error) {
+		v, err := c.TxSubmission().Server.RequestTxIds(true, 4)
+		return fmt.Sprint(len(v)), err
+	})
+	srvTxs := call("RequestTxs", func(c *ouroboros.Connection) (string, error) {
+		v, err := c.TxSubmission().Server.RequestTxs([]txsubmission.TxId{txid})
+		return fmt.Sprint(len(v)), err
+	})
+	bfGet := call("GetBlock", func(c *ouroboros.Connection) (string, error) {
+		b, err := c.BlockFetch().Client.GetBlock(bs[0].point())
+		if err != nil {
+			return "", err
+		}
+		return fmt.Sprint(b.SlotNumber()), nil
+	})
+	cs := func(e ev) ev { return e.on("chain-sync", chainsync.ProtocolIdNtN, false) }
+	ts := func(e ev) ev { return e.on("tx-submission", txsubmission.ProtocolId, true) }
+	bf := func(e ev) ev { return e.on("block-fetch", blockfetch.ProtocolId, false) }
+	return []*scenario{{
+		// one duplex connection: the chain-sync client goes through a Stop/Start cycle and the
+		// tx-submission server through a MsgDone/restart cycle while the other half is in use
+		Name: "duplex/client-restart+server-done-restart", Proto: "duplex(chain-sync+tx-submission+block-fetch)", ProtoID: chainsync.ProtocolIdNtN, Mode: modeNtNDuplex, Opts: opts,
+		Calls: []apiCall{csTip, srvIds.failing(), csStop, csStart, csTip, srvIds, srvTxs, bfGet},
+		Script: []ev{
+			cs(rq(4, "GetCurrentTip")), cs(rp("GetCurrentTip", foundOrigin, notFound)),
+			ts(rp("RequestTxIds(blocking)", init)), ts(rq(0, "RequestTxIds(blocking)")), ts(rp("RequestTxIds(blocking)", done, ids)),
+			cs(rqOpt(7, "Stop")),
+			cs(rq(4, "GetCurrentTip~2")), cs(rp("GetCurrentTip~2", foundOrigin, notFound)),
+			pause(30000, "RequestTxIds(blocking)~2"), ts(rp("RequestTxIds(blocking)~2", init)), ts(rq(0, "RequestTxIds(blocking)~2")), ts(rp("RequestTxIds(blocking)~2", ids, done)),
+			ts(rq(2, "RequestTxs")), ts(rp("RequestTxs", txs)),
+			bf(rq(0, "GetBlock")), bf(rp("GetBlock", start, noBlocks)), bf(rp("GetBlock", blk0, bdone)), bf(rp("GetBlock", bdone, blk0)),
+		},
+		BadExtra: []wire{raw("unknown-tag-98", xcbor.A(xcbor.U(98)))},
+	}}
 }
 
 // ---- local-tx-monitor ------------------------------------------------------------------
@@ -193,6 +285,10 @@ func txMonitorScenarios() []*scenario {
 			SM: &smBinding{localtxmonitor.StateMap, localtxmonitor.NewMsgFromCbor, "Idle"}}
 	}
 	return []*scenario{
+		withTimeouts(mk("HasTx-timeouts", []apiCall{cAcquire, cHasTx}, []ev{rq(1, "Acquire"), rp("Acquire", acquired), rq(7, "HasTx"), rHasTx}), func() []ouroboros.ConnectionOptionFunc {
+			return []ouroboros.ConnectionOptionFunc{ouroboros.WithLocalTxMonitorConfig(localtxmonitor.NewConfig(
+				localtxmonitor.WithAcquireTimeout(shortTimeout), localtxmonitor.WithQueryTimeout(shortTimeout)))}
+		}),
 		mk("Acquire", []apiCall{cAcquire}, []ev{rq(1, "Acquire"), rp("Acquire", acquired)}),
 		mk("HasTx", []apiCall{cAcquire, cHasTx}, []ev{rq(1, "Acquire"), rp("Acquire", acquired), rq(7, "HasTx"), rHasTx}),
 		mk("NextTx", []apiCall{cAcquire, cNextTx}, []ev{rq(1, "Acquire"), rp("Acquire", acquired), rq(5, "NextTx"), rNextTx}),
@@ -280,6 +376,16 @@ func lsqScenarios() []*scenario {
 		return mk(name, []apiCall{cAcquireTip, c}, []ev{rq(8, "AcquireVolatileTip"), rAcq("AcquireVolatileTip"), rq(3, name), rRes(name, res)})
 	}
 	return []*scenario{
+		// failed operations as history: a refused acquire, then a good one and a query
+		mk("Acquire-refused-then-query", []apiCall{cAcquire.failing(), cAcquireTip, cStart}, []ev{
+			rq(0, "Acquire"), rp("Acquire", failure, acquired, failureUnknown),
+			rq(8, "AcquireVolatileTip"), rAcq("AcquireVolatileTip"),
+			rq(3, "GetSystemStart"), rRes("GetSystemStart", resStart)}),
+		withTimeouts(mk("GetSystemStart-timeouts", []apiCall{cAcquireTip, cStart}, []ev{rq(8, "AcquireVolatileTip"), rAcq("AcquireVolatileTip"), rq(3, "GetSystemStart"), rRes("GetSystemStart", resStart)}),
+			func() []ouroboros.ConnectionOptionFunc {
+				return []ouroboros.ConnectionOptionFunc{ouroboros.WithLocalStateQueryConfig(localstatequery.NewConfig(
+					localstatequery.WithAcquireTimeout(shortTimeout), localstatequery.WithQueryTimeout(shortTimeout)))}
+			}),
 		mk("Acquire", []apiCall{cAcquire}, []ev{rq(0, "Acquire"), rAcq("Acquire")}),
 		mk("AcquireImmutableTip", []apiCall{cAcquireImm}, []ev{rq(10, "AcquireImmutableTip"), rAcq("AcquireImmutableTip")}),
 		mk("Release", []apiCall{cAcquireTip, cRelease}, []ev{rq(8, "AcquireVolatileTip"), rAcq("AcquireVolatileTip"), rq(5, "Release")}),
@@ -324,6 +430,10 @@ func txSubmissionScenarios() []*scenario {
 			SM: &smBinding{localtxsubmission.StateMap, localtxsubmission.NewMsgFromCbor, "Idle"}}
 	}
 	return []*scenario{
+		mk("Rejected-then-SubmitTx", []apiCall{cSubmit.failing(), cSubmit}, []ev{rq(0, "SubmitTx"), rp("SubmitTx", reject, accept, rejectOdd), rq(0, "SubmitTx~2"), r2}),
+		withTimeouts(mk("SubmitTx-timeouts", []apiCall{cSubmit}, []ev{rq(0, "SubmitTx"), r}), func() []ouroboros.ConnectionOptionFunc {
+			return []ouroboros.ConnectionOptionFunc{ouroboros.WithLocalTxSubmissionConfig(localtxsubmission.NewConfig(localtxsubmission.WithTimeout(shortTimeout)))}
+		}),
 		mk("SubmitTx", []apiCall{cSubmit}, []ev{rq(0, "SubmitTx"), r}),
 		mk("SubmitTx-twice-Stop", []apiCall{cSubmit, cSubmit, cStop}, []ev{rq(0, "SubmitTx"), r, rq(0, "SubmitTx~2"), r2, rq(3, "Stop")}),
 	}
@@ -432,7 +542,34 @@ func chainSyncScenarios() []*scenario {
 				floodOpaque = raw("RollForward(opaque-150KB)", xcbor.A(xcbor.U(2), xcbor.A(xcbor.U(6), xcbor.Tg(24, xcbor.B(make([]byte, 150000)))),
 					xcbor.A(xcbor.A(xcbor.U(b1.Slot+1000), xcbor.B(b1.Hash)), xcbor.U(2000))))
 			}
-			return &scenario{Name: pfx + name, Proto: proto, ProtoID: id, Mode: mode, Calls: calls, Script: script, BadExtra: badExtra, Opts: chainSyncOpts(limit), SM: sm, Flood: []floodMsg{{wire: flood}, {wire: floodOpaque, IdleOnly: true}}}
+			return &scenario{Name: pfx + name, Proto: proto, ProtoID: id, Mode: mode, Calls: calls, Script: script, BadExtra: badExtra, Opts: chainSyncOpts(limit), SM: sm, Flood: []floodMsg{{wire: flood}, {wire: floodOpaque, IdleOnly: true}}, StopCall: &cStop}
+		}
+		cStart := call("Start", func(c *ouroboros.Connection) (string, error) { cl(c).Start(); return "ok", nil })
+		// the same client object through Stop/Start cycles (each Start is a new protocol
+		// instance on the same muxer): no state-map binding, the conversation restarts
+		restart := mk("restart-cycles", 0, []apiCall{cTip, cStop, cStart, cTip, cStop, cStart, cRange}, []ev{
+			rq(4, "GetCurrentTip"), rInt("GetCurrentTip", foundOrigin), rqOpt(7, "Stop"),
+			rq(4, "GetCurrentTip~2"), rInt("GetCurrentTip~2", foundOrigin), rqOpt(7, "Stop~2"),
+			rq(4, "GetAvailableBlockRange"), rInt("GetAvailableBlockRange", found),
+			rq(0, "GetAvailableBlockRange"), rNext("GetAvailableBlockRange", back),
+			rq(0, "GetAvailableBlockRange"), rNext("GetAvailableBlockRange", fwd)})
+		restart.SM = nil
+		out = append(out, restart,
+			// a failed operation, then the next one
+			mk("Range-notfound-then-Tip", 0, []apiCall{cRange.failing(), cTip}, []ev{
+				rq(4, "GetAvailableBlockRange"), rInt("GetAvailableBlockRange", notFound),
+				rq(4, "GetCurrentTip"), rInt("GetCurrentTip", foundOrigin)}))
+		if ntn {
+			out = append(out, withTimeouts(mk("Sync-timeouts", 1, []apiCall{cSync}, []ev{
+				rq(4, "Sync"), rInt("Sync", found),
+				rq(0, "Sync"), rNext("Sync", back),
+				rq(0, "Sync"), rNext("Sync", fwd0)}), func() []ouroboros.ConnectionOptionFunc {
+				cfg := chainsync.NewConfig(
+					chainsync.WithRollForwardFunc(func(chainsync.CallbackContext, uint, any, chainsync.Tip) error { return nil }),
+					chainsync.WithRollBackwardFunc(func(chainsync.CallbackContext, pcommon.Point, chainsync.Tip) error { return nil }),
+					chainsync.WithPipelineLimit(1), chainsync.WithIntersectTimeout(shortTimeout), chainsync.WithBlockTimeout(shortTimeout))
+				return []ouroboros.ConnectionOptionFunc{ouroboros.WithChainSyncConfig(cfg)}
+			}))
 		}
 		out = append(out,
 			mk("GetCurrentTip", 0, []apiCall{cTip}, []ev{rq(4, "GetCurrentTip"), rInt("GetCurrentTip", foundOrigin)}),
@@ -517,9 +654,31 @@ func blockFetchScenarios() []*scenario {
 	mk := func(name string, calls []apiCall, script []ev) *scenario {
 		return &scenario{Name: "blockfetch/" + name, Proto: proto, ProtoID: id, Mode: modeNtN, Calls: calls, Script: script, BadExtra: badExtra, Opts: opts,
 			SM:    &smBinding{blockfetch.StateMap, blockfetch.NewMsgFromCbor, "Idle"},
-			Flood: []floodMsg{{wire: blk1}, {wire: ebb}}}
+			Flood: []floodMsg{{wire: blk1}, {wire: ebb}}, StopCall: &cStop}
 	}
+	cStart := call("Start", func(c *ouroboros.Connection) (string, error) { cl(c).Start(); return "ok", nil })
+	noSM := func(s *scenario) *scenario { s.SM = nil; return s }
 	return []*scenario{
+		// the same client object through Stop/Start cycles
+		noSM(mk("restart-cycles", []apiCall{cGet, cStop, cStart, cGet, cStop, cStart, cGet}, []ev{
+			rq(0, "GetBlock"), rStart("GetBlock"), rBlock("GetBlock", blk0), rDone("GetBlock"), rqOpt(1, "Stop"),
+			rq(0, "GetBlock~2"), rStart("GetBlock~2"), rBlock("GetBlock~2", blk0), rDone("GetBlock~2"), rqOpt(1, "Stop~2"),
+			rq(0, "GetBlock~3"), rStart("GetBlock~3"), rBlock("GetBlock~3", blk0), rDone("GetBlock~3")})),
+		// Stop in the middle of a streamed range, restart, next request on the new instance
+		noSM(mk("stop-midrange-restart", []apiCall{cRange, cStop, cStart, cGet}, []ev{
+			rq(0, "GetBlockRange"), rStart("GetBlockRange"), rBlock("GetBlockRange", blk0), rqOpt(1, "Stop"),
+			rq(0, "GetBlock"), rStart("GetBlock"), rBlock("GetBlock", blk0), rDone("GetBlock")})),
+		// a failed operation, then the next one
+		mk("NoBlocks-then-GetBlock", []apiCall{cGet.failing(), cGet}, []ev{
+			rq(0, "GetBlock"), rp("GetBlock", noBlocks, start),
+			rq(0, "GetBlock~2"), rStart("GetBlock~2"), rBlock("GetBlock~2", blk0), rDone("GetBlock~2")}),
+		withTimeouts(mk("GetBlock-timeouts", []apiCall{cGet}, []ev{rq(0, "GetBlock"), rStart("GetBlock"), rBlock("GetBlock", blk0), rDone("GetBlock")}), func() []ouroboros.ConnectionOptionFunc {
+			cfg, _ := blockfetch.NewConfig(
+				blockfetch.WithBlockFunc(func(blockfetch.CallbackContext, uint, ledger.Block) error { return nil }),
+				blockfetch.WithBatchDoneFunc(func(blockfetch.CallbackContext) error { return nil }),
+				blockfetch.WithBatchStartTimeout(shortTimeout), blockfetch.WithBlockTimeout(shortTimeout))
+			return []ouroboros.ConnectionOptionFunc{ouroboros.WithBlockFetchConfig(cfg)}
+		}),
 		mk("GetBlock", []apiCall{cGet}, []ev{rq(0, "GetBlock"), rStart("GetBlock"), rBlock("GetBlock", blk0), rDone("GetBlock")}),
 		mk("GetBlockRange", []apiCall{cRange}, []ev{rq(0, "GetBlockRange"), rStart("GetBlockRange"), rBlock("GetBlockRange", blk0), rBlock("GetBlockRange", blk1), rDone("GetBlockRange")}),
 		mk("GetBlock-GetBlock-Stop", []apiCall{cGet, cGet, cStop}, []ev{
@@ -555,6 +714,9 @@ func peerSharingScenarios() []*scenario {
 			SM: &smBinding{peersharing.StateMap, peersharing.NewMsgFromCbor, "Idle"}}
 	}
 	return []*scenario{
+		withTimeouts(mk("GetPeers-timeouts", []apiCall{cGet}, []ev{rq(0, "GetPeers"), r}), func() []ouroboros.ConnectionOptionFunc {
+			return []ouroboros.ConnectionOptionFunc{ouroboros.WithPeerSharingConfig(peersharing.NewConfig(peersharing.WithTimeout(shortTimeout)))}
+		}),
 		mk("GetPeers", []apiCall{cGet}, []ev{rq(0, "GetPeers"), r}),
 		mk("GetPeers-twice", []apiCall{cGet, cGet}, []ev{rq(0, "GetPeers"), r, rq(0, "GetPeers~2"), rp("GetPeers~2", peers, none, odd)}),
 	}
@@ -656,6 +818,20 @@ func txSubmissionServerScenarios() []*scenario {
 				e.Bad = []wire{ids, done}
 				return e
 			}()}),
+		// the same server object through two MsgDone/restart cycles (each restart is a new
+		// protocol instance that waits for a new Init)
+		func() *scenario {
+			s := mk("done-restart-cycles", []apiCall{cIdsB.failing(), cIdsB, cTxs, cIdsB.failing(), cIdsNB}, []ev{
+				rInit("RequestTxIds(blocking)"), rq(0, "RequestTxIds(blocking)"), rp("RequestTxIds(blocking)", done, ids),
+				pause(30000, "RequestTxIds(blocking)~2"), // a peer that starts over gives the responder time to restart
+				rInit("RequestTxIds(blocking)~2"), rq(0, "RequestTxIds(blocking)~2"), rp("RequestTxIds(blocking)~2", ids, done),
+				rq(2, "RequestTxs"), rp("RequestTxs", txs),
+				rq(0, "RequestTxIds(blocking)~3"), rp("RequestTxIds(blocking)~3", done, ids),
+				pause(30000, "RequestTxIds(non-blocking)"),
+				rInit("RequestTxIds(non-blocking)"), rq(0, "RequestTxIds(non-blocking)"), rp("RequestTxIds(non-blocking)", ids, noIds)})
+			s.SM = nil
+			return s
+		}(),
 		mk("session", []apiCall{cIdsB, cTxs, cIdsNB, cIdsB}, []ev{rInit("RequestTxIds(blocking)"), rq(0, "RequestTxIds(blocking)"), rp("RequestTxIds(blocking)", ids, done),
 			rq(2, "RequestTxs"), rp("RequestTxs", txs),
 			rq(0, "RequestTxIds(non-blocking)"), rp("RequestTxIds(non-blocking)", noIds, ids),
@@ -704,7 +880,19 @@ func leiosScenarios() []*scenario {
 			return &scenario{Name: "leiosfetch/" + name, Proto: proto, ProtoID: id, Mode: modeNtN, Calls: calls, Script: script, BadExtra: badExtra,
 				SM: &smBinding{leiosfetch.StateMap, leiosfetch.NewMsgFromCbor, "Idle"}}
 		}
+		cBlockCtx := call("BlockRequest(30ms-context)", func(c *ouroboros.Connection) (string, error) {
+			ctx, cancel := context.WithTimeout(context.Background(), 30*time.Millisecond)
+			defer cancel()
+			m, err := cl(c).BlockRequest(ctx, b0.point())
+			return fmt.Sprint(m != nil), err
+		})
 		out = append(out,
+			// failed operations as history: not found, then an expired context whose late
+			// reply has to be drained, then a good request
+			mk("NoBlock-expired-context-then-Block", []apiCall{cBlock.failing(), cBlockCtx.failing(), cBlock}, []ev{
+				rq(0, "BlockRequest"), rp("BlockRequest", noBlock, block),
+				rq(0, "BlockRequest(30ms-context)"), pause(80000, "BlockRequest(30ms-context)"), rp("BlockRequest(30ms-context)", block, noBlock),
+				rq(0, "BlockRequest~3"), rp("BlockRequest~3", block, noBlock)}),
 			mk("BlockRequest", []apiCall{cBlock}, []ev{rq(0, "BlockRequest"), rp("BlockRequest", block, noBlock)}),
 			mk("BlockTxsRequest", []apiCall{cBlockTxs}, []ev{rq(2, "BlockTxsRequest"), rp("BlockTxsRequest", blockTxs, noBlockTxs)}),
 			mk("VotesRequest", []apiCall{cVotes}, []ev{rq(4, "VotesRequest"), rp("VotesRequest", votes)}),
